@@ -1,7 +1,10 @@
 // extract-C05: facts about method and field resolution read from the source text:
 //
-//   - cfg.go, pre-order `case switchStmt, switchIfStmt, typeSwitch`: how the default clause is moved
-//     to the last position (swap with the last clause);
+//   - cfg.go, pre-order case of `switchStmt` / `typeSwitch`: whether the default clause is swapped with
+//     the last clause; post-order `case switchStmt`: how the clauses are chained (to the next clause
+//     of the list, or to the next clause with a test and at last to the default clause);
+//   - run.go `genFunctionWrapper`: what each arm of the receiver binding does with the receiver
+//     slot of the new frame (`dest.Set(x)` or `d[numRet] = x`);
 //   - type.go `lookupField`: whether the loop over the fields tests `f.embed`;
 //   - type.go `methodSet.contains`: whether only the presence of the name is tested;
 //   - cfg.go `case selectorExpr`: the two conditions comparing `methodDepth` with the length of the
@@ -68,32 +71,76 @@ func main() {
 			return "", err
 		}
 
-		// 1. default clause
+		// 1. the clauses of a switch with a tag / a type switch
+		//    (a) pre-order case: is the default clause swapped with the last clause
+		//    (b) post-order `case switchStmt` (reached from `case typeSwitch` by fallthrough): how the
+		//        clauses are chained
 		defaultSwap := false
-		foundSwitchCase := false
+		clauseChain := "unknown"
+		preHash, postHash := "unrecognised: pre-order case not found", "unrecognised: post-order case not found"
+		foundPre, foundPost := false, false
 		var selectorCase *ast.CaseClause
 		ast.Inspect(fc, func(n ast.Node) bool {
 			cc, ok := n.(*ast.CaseClause)
 			if !ok {
 				return true
 			}
-			if caseHas(cc, "typeSwitch") && caseHas(cc, "switchStmt") && contains(cc, "getDefault") {
-				foundSwitchCase = true
+			if caseHas(cc, "typeSwitch") && caseHas(cc, "switchStmt") && contains(cc, "sc.pushBloc()") && !foundPre {
+				foundPre = true
+				preHash = fmt.Sprintf("%x", sha256.Sum256([]byte(text(cc))))[:16]
 				for _, st := range cc.Body {
 					ast.Inspect(st, func(m ast.Node) bool {
 						as, ok := m.(*ast.AssignStmt)
-						if ok && as.Tok == token.ASSIGN && len(as.Lhs) == 2 && len(as.Rhs) == 2 {
-							if text(as.Lhs[0]) == "c[i]" && text(as.Lhs[1]) == "c[l]" && text(as.Rhs[0]) == "c[l]" && text(as.Rhs[1]) == "c[i]" {
-								defaultSwap = true
-							} else {
-								unrec = append(unrec, "default clause: "+text(as))
-							}
+						if !ok {
+							return true
+						}
+						if as.Tok == token.ASSIGN && len(as.Lhs) == 2 && len(as.Rhs) == 2 &&
+							text(as.Lhs[0]) == "c[i]" && text(as.Lhs[1]) == "c[l]" && text(as.Rhs[0]) == "c[l]" && text(as.Rhs[1]) == "c[i]" {
+							defaultSwap = true
+							return true
+						}
+						switch text(as) {
+						case "sc = sc.pushBloc()", "sc.loop = n", "c := n.lastChild().child", "i, l := getDefault(n), len(c)-1":
+						default:
+							unrec = append(unrec, "switch, pre-order: "+text(as))
 						}
 						return true
 					})
 				}
-				if !defaultSwap && len(unrec) == 0 {
-					unrec = append(unrec, "default clause: no swap found: "+text(cc))
+			}
+			if len(cc.List) == 1 && caseHas(cc, "switchStmt") && contains(cc, "sbn.start") && contains(cc, "setFNext") && !foundPost {
+				foundPost = true
+				postHash = fmt.Sprintf("%x", sha256.Sum256([]byte(text(cc))))[:16]
+				var fnexts []string
+				start, init := "", ""
+				ast.Inspect(cc, func(m ast.Node) bool {
+					switch x := m.(type) {
+					case *ast.CallExpr:
+						if id, ok := x.Fun.(*ast.Ident); ok && id.Name == "setFNext" {
+							fnexts = append(fnexts, text(x))
+						}
+					case *ast.AssignStmt:
+						if len(x.Lhs) == 1 && text(x.Lhs[0]) == "sbn.start" {
+							start = text(x)
+						}
+					case *ast.IfStmt:
+						if x.Init != nil && text(x.Init) == "i := getDefault(n)" {
+							init = text(x.Cond) + " => " + text(x.Body)
+						}
+					}
+					return true
+				})
+				all := strings.Join(fnexts, "; ")
+				switch {
+				case all == "setFNext(c, nextTest)" && start == "sbn.start = nextTest" && init == "i >= 0 => { nextTest = clauses[i] }" &&
+					contains(cc, "nextTest := n") && contains(cc, "for i := l - 1; i >= 0; i-- {") &&
+					contains(cc, "if len(c.child) > 1 { setFNext(c, nextTest) nextTest = c.start }"):
+					clauseChain = "nextTest"
+				case all == "setFNext(clauses[i], n); setFNext(c, clauses[i+1].start); setFNext(c, clauses[i+1])" &&
+					start == "sbn.start = clauses[0].start" && init == "":
+					clauseChain = "nextClause"
+				default:
+					unrec = append(unrec, "switch, post-order: "+all+" | "+start+" | "+init)
 				}
 			}
 			if caseHas(cc, "selectorExpr") && len(cc.List) == 1 && contains(cc, "lookupField") && contains(cc, "methodDepth") {
@@ -101,8 +148,11 @@ func main() {
 			}
 			return true
 		})
-		if !foundSwitchCase {
-			unrec = append(unrec, "cfg.go: case switchStmt, switchIfStmt, typeSwitch with getDefault not found")
+		if !foundPre {
+			unrec = append(unrec, "cfg.go: pre-order case of switchStmt / typeSwitch not found")
+		}
+		if !foundPost {
+			unrec = append(unrec, "cfg.go: post-order case switchStmt (clause chaining) not found")
 		}
 
 		// 2. lookupField loop
@@ -176,34 +226,99 @@ func main() {
 			unrec = append(unrec, "cfg.go: case selectorExpr with lookupField/methodDepth not found")
 		}
 
+		// 5. genFunctionWrapper: the receiver binding
+		bind := map[string]string{"ptrToVal": "unknown", "valToPtr": "unknown", "same": "unknown"}
+		recvHash := "unrecognised: receiver binding not found"
+		if fd := common.FindFunc(fr, "", "genFunctionWrapper"); fd == nil {
+			unrec = append(unrec, "run.go: genFunctionWrapper not found")
+		} else {
+			found := false
+			ast.Inspect(fd, func(n ast.Node) bool {
+				sw, ok := n.(*ast.SwitchStmt)
+				if !ok || sw.Tag != nil || found {
+					return true
+				}
+				isIt := false
+				for _, st := range sw.Body.List {
+					if cc := st.(*ast.CaseClause); len(cc.List) == 1 && text(cc.List[0]) == "sk == reflect.Ptr && dk != reflect.Ptr" {
+						isIt = true
+					}
+				}
+				if !isIt {
+					return true
+				}
+				found = true
+				recvHash = fmt.Sprintf("%x", sha256.Sum256([]byte(text(sw))))[:16]
+				for _, st := range sw.Body.List {
+					cc := st.(*ast.CaseClause)
+					arm, operand := "", ""
+					switch {
+					case len(cc.List) == 0:
+						arm, operand = "same", "src"
+					case len(cc.List) == 1 && text(cc.List[0]) == "sk == reflect.Ptr && dk != reflect.Ptr":
+						arm, operand = "ptrToVal", "src.Elem()"
+					case len(cc.List) == 1 && text(cc.List[0]) == "sk != reflect.Ptr && dk == reflect.Ptr":
+						arm, operand = "valToPtr", "src.Addr()"
+					default:
+						unrec = append(unrec, "receiver binding: arm "+text(cc))
+						continue
+					}
+					body := ""
+					for _, b := range cc.Body {
+						body += text(b) + ";"
+					}
+					switch body {
+					case "dest.Set(" + operand + ");":
+						bind[arm] = "set"
+					case "d[numRet] = " + operand + ";":
+						bind[arm] = "slot"
+					default:
+						unrec = append(unrec, "receiver binding, arm "+arm+": "+body)
+					}
+				}
+				return true
+			})
+			if !found {
+				unrec = append(unrec, "run.go genFunctionWrapper: switch on sk / dk not found")
+			} else if !contains(fd, "src, dest := rcvr(f), d[numRet]") || !contains(fd, "sk, dk := src.Kind(), dest.Kind()") {
+				unrec = append(unrec, "run.go genFunctionWrapper: src / dest / sk / dk are not bound as expected")
+			}
+		}
+
 		hT := common.HashTable(fsT, ft, [][2]string{{"itype", "lookupField"}, {"itype", "fieldIndex"}, {"itype", "lookupMethod"}, {"itype", "lookupMethod2"},
 			{"itype", "getMethod"}, {"itype", "methodDepth"}, {"itype", "methods"}, {"methodSet", "contains"}, {"itype", "implements"}, {"", "lookupFieldOrMethod"}})
 		hC := common.HashTable(fsC, fc, [][2]string{{"", "matchSelectorMethod"}, {"", "getDefault"}})
 		hR := common.HashTable(fsR, fr, [][2]string{{"", "typeAssert"}, {"", "_case"}, {"", "implementsInterface"}, {"", "canAssertTypes"},
-			{"", "getMethod"}, {"", "getMethodByName"}, {"", "lookupMethodValue"}, {"", "stripReceiverFromArgs"}})
+			{"", "getMethod"}, {"", "getMethodByName"}, {"", "lookupMethodValue"}, {"", "stripReceiverFromArgs"}, {"", "genFunctionWrapper"}})
 		hK := common.HashTable(fsK, fk, [][2]string{{"typecheck", "typeAssertionExpr"}})
 		hV := common.HashTable(fsV, fv, [][2]string{{"", "genDestValue"}, {"", "genValueInterface"}, {"", "genValueRecv"}})
 		return fmt.Sprintf(`import YaegiVerif.Model.Method
 namespace YaegiVerif.Generated.C05
 open YaegiVerif.Method
-/-- choices read from interp/cfg.go and interp/type.go -/
+/-- choices read from interp/cfg.go, interp/type.go and interp/run.go -/
 def facts : Facts :=
   { defaultSwap := %v,
+    clauseChain := .%s,
     fieldLoopEmbedOnly := %v,
     containsNamesOnly := %v,
     methodWinsCond := %s,
-    ambiguousCond := %s }
+    ambiguousCond := %s,
+    recvBind := { ptrToVal := .%s, valToPtr := .%s, same := .%s } }
 /-- constructs the extractor no longer recognises -/
 def unrecognised : List String := %s
-/-- fingerprints of the transcribed functions and of the selector case of cfg.go -/
+/-- fingerprints of the transcribed functions, of three cases of cfg.go and of the receiver binding -/
 def sourceHashes : List (String × String) :=
   %s ++
   %s ++
   %s ++
   %s ++
   %s ++
-  [("cfg.go case selectorExpr", %s)]
+  [("cfg.go case selectorExpr", %s),
+   ("cfg.go pre-order case switchStmt, typeSwitch", %s),
+   ("cfg.go post-order case switchStmt", %s),
+   ("genFunctionWrapper receiver binding", %s)]
 end YaegiVerif.Generated.C05
-`, defaultSwap, embedOnly, namesOnly, common.LeanStr(methodWins), common.LeanStr(ambiguous), common.LeanStrList(unrec), hT, hC, hR, hK, hV, common.LeanStr(selHash)), nil
+`, defaultSwap, clauseChain, embedOnly, namesOnly, common.LeanStr(methodWins), common.LeanStr(ambiguous), bind["ptrToVal"], bind["valToPtr"], bind["same"],
+			common.LeanStrList(unrec), hT, hC, hR, hK, hV, common.LeanStr(selHash), common.LeanStr(preHash), common.LeanStr(postHash), common.LeanStr(recvHash)), nil
 	})
 }
